@@ -37,9 +37,28 @@ def model_case(draw, dims=(1, 2, 3, 4, 5)):
     frozen = [draw(st.sampled_from([False, False, False, True])) for _ in range(nd)]
     if all(frozen):
         frozen[draw(st.integers(0, nd - 1))] = False
-    nus = [draw(G.loguniform(1e-2, 1e2)) for _ in range(nd)]
-    ms = [[0.0 if (i == j or frozen[i] or frozen[j]) else draw(rate()) for j in range(nd)] for i in range(nd)]
-    gammas = [draw(st.one_of(st.just(0.0), st.floats(-40.0, 40.0))) for _ in range(nd)]
+    regime = draw(st.sampled_from(['mixed', 'mixed', 'quiet']))
+    if regime == 'mixed':
+        nus = [draw(G.loguniform(1e-2, 1e2)) for _ in range(nd)]
+        ms = [[0.0 if (i == j or frozen[i] or frozen[j]) else draw(rate()) for j in range(nd)] for i in range(nd)]
+        gammas = [draw(st.one_of(st.just(0.0), st.floats(-40.0, 40.0))) for _ in range(nd)]
+    else:
+        # every term of the time-step rule small, then at most one of them (a chosen population's drift, migration or
+        # selection) made the one that sets the step - so that each term of each population binds in some cases
+        nus = [draw(G.loguniform(2.0, 1e2)) for _ in range(nd)]
+        ms = [[0.0 if (i == j or frozen[i] or frozen[j]) else draw(st.sampled_from([0.0, 0.0, 0.01, 0.03])) for j in range(nd)] for i in range(nd)]
+        gammas = [draw(st.sampled_from([0.0, 0.0, 0.1, -0.2])) for _ in range(nd)]
+        b = draw(st.integers(0, nd - 1))
+        term = draw(st.sampled_from(['none', 'drift', 'mig', 'sel']))
+        regime = 'quiet-%s' % term
+        if term == 'drift':
+            nus[b] = draw(G.loguniform(1e-2, 0.5))
+        elif term == 'sel':
+            gammas[b] = draw(st.floats(2.0, 40.0)) * draw(st.sampled_from([-1, 1]))
+        elif term == 'mig' and nd > 1 and not frozen[b]:
+            others = [j for j in range(nd) if j != b and not frozen[j]]
+            if others:
+                ms[b][draw(st.sampled_from(others))] = draw(st.floats(0.5, 20.0))
     hs = [draw(st.one_of(st.just(0.5), st.floats(0.0, 1.0))) for _ in range(nd)]
     mode = draw(st.sampled_from(['const', 'func-const', 'varying']))
     vary = dict(r=[draw(st.floats(-1.5, 1.5)) for _ in range(nd)], sm=draw(st.floats(-0.5, 1.0)),
@@ -47,7 +66,7 @@ def model_case(draw, dims=(1, 2, 3, 4, 5)):
     return dict(nd=nd, L=L, grid=spec, phi_seed=draw(st.integers(0, 2 ** 31 - 1)), phi_kind=draw(st.sampled_from(G.PHI_KINDS)),
                 nus=nus, ms=ms, gammas=gammas, hs=hs, theta0=draw(st.floats(0.0, 10.0)), frozen=frozen,
                 nomut=[draw(st.booleans()), draw(st.booleans())] if nd == 2 else None,
-                mode=mode, vary=vary, steps=draw(st.floats(1.2, 8.0)), beta=draw(G.loguniform(0.2, 5.0)) if nd == 1 else 1.0,
+                mode=mode, vary=vary, regime=regime, steps=draw(st.floats(1.2, 8.0)), beta=draw(G.loguniform(0.2, 5.0)) if nd == 1 else 1.0,
                 initial_t=draw(st.sampled_from([0.0, 0.0, 0.3])))
 
 
@@ -115,7 +134,7 @@ def run(case, phi, xx, T0, T, c=1.0, theta_scale=1.0):
 
 
 def labels(case):
-    return [D.DRIVERS[case['nd']].__name__, case['mode'], 'frozen' if any(case['frozen']) else 'nofrozen',
+    return [D.DRIVERS[case['nd']].__name__, case['mode'], case.get('regime', 'mixed'), 'frozen' if any(case['frozen']) else 'nofrozen',
             'nomut' if case['nomut'] and any(case['nomut']) else 'mut']
 
 
@@ -129,7 +148,7 @@ def lin_case(draw):
                 phi2_kind=draw(st.sampled_from(G.PHI_KINDS + ['zeros'])))
 
 
-@REG.relation('R1-linearity', strategy=lin_case, quick=(700, 16), thorough=(20000, 16))
+@REG.relation('R1-linearity', strategy=lin_case, quick=(1600, 16), thorough=(30000, 16))
 def r1(case, rec):
     """I(a phi1 + b phi2 ; a th1 + b th2) = a I(phi1; th1) + b I(phi2; th2)."""
     m = case['model']
@@ -170,7 +189,7 @@ def scale_case(draw):
     return dict(model=c, c=draw(G.loguniform(0.05, 20.0)))
 
 
-@REG.relation('R2-reference-size', strategy=scale_case, quick=(700, 16), thorough=(20000, 16))
+@REG.relation('R2-reference-size', strategy=scale_case, quick=(1600, 16), thorough=(30000, 16))
 def r2(case, rec):
     """I(phi; cT, c nu, m/c, gamma/c, theta0/c) = I(phi; T, nu, m, gamma, theta0), also for time-varying parameters
     (nu_c(t) = c nu(t/c), ...), frozen / nomut flags and non-zero initial_t."""
